@@ -400,6 +400,8 @@ func isNilRef(x value) bool {
 		return x == nil
 	case []value:
 		return x == nil
+	case *absBytes:
+		return false
 	case *ssa.Builtin:
 		return false
 	}
@@ -788,6 +790,9 @@ func (fr *frame) indexRead(cells []value, idx value, t types.Type) value {
 
 // slice returns x[lo:hi:max].  Any of lo, hi and max may be nil.
 func (fr *frame) slice(instr *ssa.Slice, x, lo, hi, max value) value {
+	if ab, ok := x.(*absBytes); ok {
+		return fr.sliceAbstract(instr, ab, lo, hi, max)
+	}
 	var Len, Cap int
 	isStr := false
 	switch x := x.(type) {
@@ -872,6 +877,27 @@ func (fr *frame) slice(instr *ssa.Slice, x, lo, hi, max value) value {
 	panic("unreachable")
 }
 
+func (fr *frame) sliceAbstract(instr *ssa.Slice, ab *absBytes, lo, hi, max value) value {
+	tm := func(v value, sv ssa.Value, def *Term) *Term {
+		if v == nil {
+			return def
+		}
+		c, t := idx64(v, sv.Type())
+		if t != nil {
+			return t
+		}
+		return mkConst(64, uint64(c))
+	}
+	l := tm(lo, instr.Low, mkConst(64, 0))
+	h := tm(hi, instr.High, ab.n)
+	m := tm(max, instr.Max, ab.c)
+	ok := mkBAnd(mkCmp(OpSle, mkConst(64, 0), l), mkCmp(OpSle, l, h), mkCmp(OpSle, h, m), mkCmp(OpSle, m, ab.c))
+	if !fr.truth(norm(ok, boolType), "slice-bounds") {
+		fr.i.rtPanic(fr, "slice bounds out of range [abstract buffer]")
+	}
+	return &absBytes{id: ab.id, off: mkBin(OpAdd, ab.off, l), n: mkBin(OpSub, h, l), c: mkBin(OpSub, m, l)}
+}
+
 // lookup returns x[idx] where x is a map.
 func (fr *frame) lookup(instr *ssa.Lookup, x, idx value) value {
 	m, ok := x.(*omap)
@@ -949,6 +975,12 @@ func (fr *frame) callBuiltin(callpos token.Pos, fn *ssa.Builtin, args []value) v
 		if len(args) == 1 {
 			return args[0]
 		}
+		if _, ok := args[0].(*absBytes); ok {
+			abandon("append to an abstract buffer")
+		}
+		if _, ok := args[1].(*absBytes); ok {
+			abandon("append of an abstract buffer (cells are not modelled)")
+		}
 		arg0 := args[0].([]value)
 		var src []value
 		if isStringVal(args[1]) {
@@ -1025,6 +1057,8 @@ func (fr *frame) callBuiltin(callpos token.Pos, fn *ssa.Builtin, args []value) v
 			return len((*x).(array))
 		case []value:
 			return len(x)
+		case *absBytes:
+			return norm(x.n, types.Typ[types.Int])
 		case *omap:
 			return x.len()
 		case *chanVal:
@@ -1041,6 +1075,8 @@ func (fr *frame) callBuiltin(callpos token.Pos, fn *ssa.Builtin, args []value) v
 			return cap((*x).(array))
 		case []value:
 			return cap(x)
+		case *absBytes:
+			return norm(x.c, types.Typ[types.Int])
 		case *chanVal:
 			return 0
 		default:
